@@ -366,4 +366,76 @@ theorem osuSlider_counts (A : Arith F) (fuel : Nat) (s : SliderIn F) (o : OsuObj
   · show largeTickCount (osuNested A (osuParams A s) l) = _
     rw [largeTickCount_eq, ht, hr, c5, c2, hn]
 
+
+/-! ## whole osu! maps -/
+
+/-- What the counting code can rely on for a descriptor built from raw parameters. -/
+def OsuObjOk (o : OsuObj) : Prop :=
+  (o.kind = .slider → o.nested = o.largeTicks + 1) ∧
+  (o.kind ≠ .slider → o.largeTicks = 0 ∧ o.nested = 0)
+
+theorem osuMapObjs_cons_ok (A : Arith F) (fuel : Nat) (o : RawObj F) (os : List (RawObj F))
+    (objs : List OsuObj) (h : osuMapObjs A fuel (o :: os) = .ok objs) :
+    ∃ a b, objs = a :: b ∧ osuMapObjs A fuel os = .ok b ∧
+      (match o with
+        | .circle => a = ⟨.circle, 0, 0⟩
+        | .spinner => a = ⟨.spinner, 0, 0⟩
+        | .slider s => osuSlider A fuel s = .ok a) := by
+  unfold osuMapObjs at h
+  simp only at h
+  split at h
+  case h_1 a b ha hb =>
+    simp only [Outcome.ok.injEq] at h
+    refine ⟨a, b, h.symm, hb, ?_⟩
+    cases o with
+    | circle => simp only [Outcome.ok.injEq] at ha; exact ha.symm
+    | spinner => simp only [Outcome.ok.injEq] at ha; exact ha.symm
+    | slider s => exact ha
+  all_goals exact absurd h (by simp)
+
+/-- One descriptor per hit object, each of the promised shape — in every arithmetic. -/
+theorem osuMapObjs_spec (A : Arith F) (fuel : Nat) :
+    ∀ (raw : List (RawObj F)) (objs : List OsuObj), osuMapObjs A fuel raw = .ok objs →
+      objs.length = raw.length ∧ ∀ o ∈ objs, OsuObjOk o := by
+  intro raw
+  induction raw with
+  | nil =>
+    intro objs h
+    simp only [osuMapObjs, Outcome.ok.injEq] at h
+    subst h
+    exact ⟨rfl, by simp⟩
+  | cons o os ih =>
+    intro objs h
+    obtain ⟨a, b, rfl, hb, ha⟩ := osuMapObjs_cons_ok A fuel o os objs h
+    obtain ⟨hl, hall⟩ := ih b hb
+    refine ⟨by simp [hl], ?_⟩
+    intro x hx
+    rcases List.mem_cons.mp hx with rfl | hx
+    · cases o with
+      | circle => simp only at ha; subst ha; exact ⟨by simp, by simp⟩
+      | spinner => simp only at ha; subst ha; exact ⟨by simp, by simp⟩
+      | slider s =>
+        simp only at ha
+        obtain ⟨hk, hn, _⟩ := osuSlider_counts A fuel s x ha
+        exact ⟨fun _ => hn, fun hne => absurd hk hne⟩
+    · exact hall x hx
+
+/-- For descriptors of that shape: max combo = objects + large ticks + sliders (one tail each). -/
+theorem osu_fold_maxCombo (l : List OsuObj) (hl : ∀ o ∈ l, OsuObjOk o) (c : OsuCounts)
+    (hc : c.maxCombo = c.nCircles + c.nSliders + c.nSpinners + c.nLargeTicks + c.nSliders) :
+    let r := l.foldl OsuCounts.incr c
+    r.maxCombo = r.nCircles + r.nSliders + r.nSpinners + r.nLargeTicks + r.nSliders := by
+  induction l generalizing c with
+  | nil => exact hc
+  | cons o t ih =>
+    simp only [List.foldl_cons]
+    apply ih (fun x hx => hl x (List.mem_cons_of_mem _ hx))
+    have ho := hl o List.mem_cons_self
+    unfold OsuObjOk at ho
+    unfold OsuCounts.incr
+    cases hk : o.kind <;> simp only [] <;> simp only [hk] at ho
+    · omega
+    · have := ho.1 trivial; omega
+    · omega
+
 end Rosu.SliderEvents
